@@ -1,4 +1,4 @@
-import SurfModel.Payload
+import SurfModel.Event
 import SurfModel.NamingTable
 /-!
 # C04 — what a terminal sends: the protocols, written from the protocol documents
@@ -7,12 +7,25 @@ A `Msg` is one self-contained thing a terminal can legitimately send, with every
 every freedom of spelling explicit.  `print : Msg → List Nat` spells it as bytes according to the protocol
 documents (xterm ctlseqs: `CSI … ~` / `CSI 1 ; m X` / `SS3 X` keys, SGR mouse `CSI < b ; x ; y M/m`, CPR
 `CSI r ; c R`, XTWINOPS replies `CSI 8 ; h ; w t` and `CSI 4 ; h ; w t`, DECRPM `CSI ? Pd ; Ps $ y`, DA1
-`CSI ? … c`, OSC 4 / 10 / 11 colour replies with `rgb:h/h/h` (X11, 1–4 hex digits per channel) or `#rrggbb`,
-DECRPSS `DCS 1 $ r … m ST`, XTGETTCAP `DCS 1 + r name=value ; … ST` / `DCS 0 + r name ; … ST`; kitty keyboard
-protocol `CSI code[:alt…] [; 1+mods] u` and `CSI ? flags u`; kitty graphics response `APC G i=…[,p=…] ; OK|msg
-ST`; bracketed paste `CSI 200 ~ text CSI 201 ~`; SGR `CSI … m`; UTF-8 text).  `denote : Msg → Event` is the
-event those bytes denote; key and button *names* follow the library's fixed naming table (`protoKeys`,
-`buttonName`), as the property prescribes.  Nothing here refers to the decoder's code.
+`CSI ? … c`, OSC 4 / 10 / 11 colour replies with `rgb:h/h/h` (X11, 1–4 hex digits per channel, either case) or
+`#rrggbb`, DECRPSS `DCS 1 $ r … m ST`, XTGETTCAP `DCS 1 + r name=value ; … ST` / `DCS 0 + r name ; … ST`; kitty
+keyboard protocol `CSI code[:alt…] [; 1+mods] u` and `CSI ? flags u`; kitty graphics response
+`APC G i=…[,I=…][,p=…] ; OK|msg ST`; bracketed paste `CSI 200 ~ text CSI 201 ~`; SGR `CSI … m` with the ECMA-48 /
+ITU T.416 / xterm parameter forms; UTF-8 text).  `denote : Msg → Event` is the event those bytes denote.
+
+What is shared with the decoder model and what is not.  This file does NOT import `SurfModel.Payload` (the
+models of the decoder's code).  It shares with it, through `SurfModel.Event`, only the vocabulary in which a
+result is expressed: the `Event` type with its enumerations (`DecMode`, `DecModeStatus`, `ColorName`, `Key` /
+`KeyName`), C06's face records (`Sgr.FMod`, `Sgr.DFace`, `Sgr.Rgba`) and the canonical container forms
+(`mapInsert` for maps, `Automata.sortDedup` for sets), plus `Vt.showNat` / `Vt.utf8` / `Vt.hex2` (decimal, UTF-8
+and hexadecimal *printing*, from C05).  Everything that relates numbers and names is written here from the
+documents: DEC private mode numbers (`PrivateMode.number`), DECRPM status values, the xterm 256 colour palette
+(`xtermPalette`), X11 channel scaling, kitty functional key codes, what text is (`TextOk`: a sequence of Unicode
+scalar values other than ESC, UTF-8 encoded), what a scalar value is (`Scalar`).  Where the property defers to
+the library — the *names* of keys (`protoKeys`, `SurfModel/NamingTable.lean`), of mouse buttons (`buttonName`)
+and the 16 named colours (`namedColors`) — the table here is a transcription of the library's fixed naming
+table, pinned against the implementation by re-checked table theorems; its known oddities are kept on purpose
+(`CSI 7 ~` is Insert, CR and TAB arrive as ctrl+m and ctrl+i, SGR mouse code 64 is named wheel *down*).
 -/
 namespace SurfModel.Protocol
 open SurfModel.Vt SurfModel.Sgr SurfModel.Grammar SurfModel.Payload
@@ -28,6 +41,14 @@ def hexFixed : Nat → Nat → List Nat
   | n + 1, v => hexFixed n (v / 16) ++ [hexDigit (v % 16)]
 
 def hexDigitUpper (d : Nat) : Nat := if d < 10 then 48 + d else 55 + d
+
+/-- one hex digit in the chosen case -/
+def hexDigitC (upper : Bool) (d : Nat) : Nat := if upper then hexDigitUpper d else hexDigit d
+
+/-- hexadecimal with exactly `n` digits in the chosen case -/
+def hexFixedC (upper : Bool) : Nat → Nat → List Nat
+  | 0, _ => []
+  | n + 1, v => hexFixedC upper n (v / 16) ++ [hexDigitC upper (v % 16)]
 
 /-- two hex digits of a byte, lower or upper case -/
 def hexByte (upper : Bool) (b : Nat) : List Nat :=
@@ -73,27 +94,46 @@ def Channel.byte (c : Channel) : Nat :=
   v16 / 256
 
 inductive ColorSpec where
-  /-- `#rrggbb` -/
-  | hash (r g b : Nat)
-  /-- `rgb:r/g/b` -/
-  | rgb (r g b : Channel)
+  /-- `#rrggbb`, hex digits in lower or upper case -/
+  | hash (r g b : Nat) (upper : Bool)
+  /-- `rgb:r/g/b`, hex digits in lower or upper case -/
+  | rgb (r g b : Channel) (upper : Bool)
   deriving Repr, DecidableEq
 
 def ColorSpec.print : ColorSpec → List Nat
-  | .hash r g b => 35 :: (hex2 r ++ hex2 g ++ hex2 b)
-  | .rgb r g b =>
-    [114, 103, 98, 58] ++ hexFixed r.digits r.value ++ [47] ++ hexFixed g.digits g.value ++ [47] ++
-      hexFixed b.digits b.value
+  | .hash r g b upper => 35 :: (hexFixedC upper 2 r ++ hexFixedC upper 2 g ++ hexFixedC upper 2 b)
+  | .rgb r g b upper =>
+    [114, 103, 98, 58] ++ hexFixedC upper r.digits r.value ++ [47] ++ hexFixedC upper g.digits g.value ++ [47] ++
+      hexFixedC upper b.digits b.value
 
 def ColorSpec.rgba : ColorSpec → Rgba
-  | .hash r g b => ⟨r, g, b, 255⟩
-  | .rgb r g b => ⟨r.byte, g.byte, b.byte, 255⟩
+  | .hash r g b _ => ⟨r, g, b, 255⟩
+  | .rgb r g b _ => ⟨r.byte, g.byte, b.byte, 255⟩
 
 def Channel.Valid (c : Channel) : Prop := 1 ≤ c.digits ∧ c.digits ≤ 4 ∧ c.value < 16 ^ c.digits
 
 def ColorSpec.Valid : ColorSpec → Prop
-  | .hash r g b => r < 256 ∧ g < 256 ∧ b < 256
-  | .rgb r g b => r.Valid ∧ g.Valid ∧ b.Valid
+  | .hash r g b _ => r < 256 ∧ g < 256 ∧ b < 256
+  | .rgb r g b _ => r.Valid ∧ g.Valid ∧ b.Valid
+
+/-! ## the xterm 256 colour palette -/
+
+/-- the 16 named colours: the library's fixed table (`COLORS`), pinned against the implementation by
+    `SurfProofs.ProtoPalette.named_colors_pinned` -/
+def namedColors : List Rgba :=
+  [⟨0, 0, 0, 255⟩, ⟨128, 0, 0, 255⟩, ⟨0, 128, 0, 255⟩, ⟨128, 128, 0, 255⟩, ⟨0, 0, 128, 255⟩, ⟨128, 0, 128, 255⟩,
+   ⟨0, 128, 128, 255⟩, ⟨192, 192, 192, 255⟩, ⟨128, 128, 128, 255⟩, ⟨255, 0, 0, 255⟩, ⟨0, 255, 0, 255⟩,
+   ⟨255, 255, 0, 255⟩, ⟨0, 0, 255, 255⟩, ⟨255, 0, 255, 255⟩, ⟨0, 255, 255, 255⟩, ⟨255, 255, 255, 255⟩]
+
+/-- level of one channel of the 6 × 6 × 6 colour cube: 0, 95, 135, 175, 215, 255 -/
+def cubeLevel (k : Nat) : Nat := if k = 0 then 0 else 55 + 40 * k
+
+/-- xterm: 0–15 named colours, 16–231 the colour cube `16 + 36 r + 6 g + b`, 232–255 the grey ramp `8 + 10 i` -/
+def xtermPalette (i : Nat) : Rgba :=
+  if i < 16 then namedColors.getD i ⟨0, 0, 0, 255⟩
+  else if i < 232 then
+    ⟨cubeLevel ((i - 16) / 36), cubeLevel ((i - 16) / 6 % 6), cubeLevel ((i - 16) % 6), 255⟩
+  else ⟨8 + 10 * (i - 232), 8 + 10 * (i - 232), 8 + 10 * (i - 232), 255⟩
 
 /-! ## SGR items -/
 
@@ -116,6 +156,16 @@ inductive SgrItem where
   | underline (style : Nat)
   /-- role 0 foreground, 1 background, 2 underline colour -/
   | rgb (role : Nat) (r g b : Nat) (form : ColorForm)
+  /-- palette colour `38 ; 5 ; n` or `38 : 5 : n` (also 48, 58) -/
+  | palette (role : Nat) (index : Nat) (colon : Bool)
+  /-- named colour 0–15: foreground `30+i` / `90+(i-8)`, background `40+i` / `100+(i-8)` -/
+  | named (background : Bool) (index : Nat)
+  /-- `21`: doubly underlined (ECMA-48) -/
+  | doubleUnderline
+  /-- `4 : s` with `s` in 0..5 (`4:0` no underline, `4:1` straight) -/
+  | underlineColon (style : Nat)
+  /-- an empty parameter: default, i.e. reset (`CSI m` is `[empty]`) -/
+  | empty
   deriving Repr, DecidableEq
 
 def roleCode (role : Nat) : Nat := match role with | 0 => 38 | 1 => 48 | _ => 58
@@ -139,6 +189,20 @@ def SgrItem.print : SgrItem → List Nat
     showNat (roleCode role) ++ [58, 50, 58] ++ showNat r ++ [58] ++ showNat g ++ [58] ++ showNat b
   | .rgb role r g b .colonSpace =>
     showNat (roleCode role) ++ [58, 50, 58, 58] ++ showNat r ++ [58] ++ showNat g ++ [58] ++ showNat b
+  | .palette role i false => showNat (roleCode role) ++ [59, 53, 59] ++ showNat i
+  | .palette role i true => showNat (roleCode role) ++ [58, 53, 58] ++ showNat i
+  | .named false i => showNat (if i < 8 then 30 + i else 82 + i)
+  | .named true i => showNat (if i < 8 then 40 + i else 92 + i)
+  | .doubleUnderline => [50, 49]
+  | .underlineColon s => [52, 58] ++ showNat s
+  | .empty => []
+
+/-- set the colour of a role -/
+def setRole (m : FMod) (role : Nat) (c : Rgba) : FMod :=
+  match role with
+  | 0 => { m with fg := some c }
+  | 1 => { m with bg := some c }
+  | _ => { m with underlineColor := some c }
 
 /-- effect of one item on the record of requested changes -/
 def SgrItem.apply (m : FMod) : SgrItem → FMod
@@ -151,10 +215,19 @@ def SgrItem.apply (m : FMod) : SgrItem → FMod
   | .rgb 0 r g b _ => { m with fg := some ⟨r, g, b, 255⟩ }
   | .rgb 1 r g b _ => { m with bg := some ⟨r, g, b, 255⟩ }
   | .rgb _ r g b _ => { m with underlineColor := some ⟨r, g, b, 255⟩ }
+  | .palette role i _ => setRole m role (xtermPalette i)
+  | .named false i => { m with fg := some (xtermPalette i) }
+  | .named true i => { m with bg := some (xtermPalette i) }
+  | .doubleUnderline => { m with underline := some 2 }
+  | .underlineColon s => { m with underline := some s }
+  | .empty => { reset := true }
 
 def SgrItem.Valid : SgrItem → Prop
   | .underline s => s ≤ 5
   | .rgb role r g b _ => role ≤ 2 ∧ r < 256 ∧ g < 256 ∧ b < 256
+  | .palette role i _ => role ≤ 2 ∧ i < 256
+  | .named _ i => i < 16
+  | .underlineColon s => s ≤ 5
   | _ => True
 
 def sgrParams (items : List SgrItem) : List Nat := joinWith 59 (items.map SgrItem.print)
@@ -166,6 +239,70 @@ def faceOf (m : FMod) : DFace :=
   { fg := m.fg, bg := m.bg, under := m.underline.getD 0, bold := m.bold.getD false,
     italic := m.italic.getD false, blink := m.blink.getD false, reverse := false,
     strike := m.strike.getD false }
+
+/-! ## DEC private modes and DECRPM status values (xterm ctlseqs, VT510 DECRPM) -/
+
+inductive PrivateMode where
+  /-- DECTCEM -/
+  | cursorVisible
+  /-- DECAWM -/
+  | autoWrap
+  /-- DECSDM -/
+  | sixelScrolling
+  /-- X11 mouse button tracking -/
+  | mouseButtons
+  /-- any-event mouse tracking -/
+  | mouseAnyMotion
+  /-- SGR mouse encoding -/
+  | mouseSgr
+  /-- alternate screen with cursor save -/
+  | altScreen
+  /-- synchronized output -/
+  | synchronizedOutput
+  /-- bracketed paste -/
+  | bracketedPaste
+  deriving Repr, DecidableEq
+
+/-- `Pd` of `CSI ? Pd h` -/
+def PrivateMode.number : PrivateMode → Nat
+  | .cursorVisible => 25 | .autoWrap => 7 | .sixelScrolling => 80 | .mouseButtons => 1000
+  | .mouseAnyMotion => 1003 | .mouseSgr => 1006 | .altScreen => 1049 | .synchronizedOutput => 2026
+  | .bracketedPaste => 2004
+
+/-- the library's name of the mode -/
+def PrivateMode.name : PrivateMode → DecMode
+  | .cursorVisible => .visibleCursor | .autoWrap => .autoWrap | .sixelScrolling => .sixelScrolling
+  | .mouseButtons => .mouseReport | .mouseAnyMotion => .mouseMotions | .mouseSgr => .mouseSGR
+  | .altScreen => .altScreen | .synchronizedOutput => .synchronizedOutput | .bracketedPaste => .bracketedPaste
+
+def PrivateMode.all : List PrivateMode :=
+  [.cursorVisible, .autoWrap, .sixelScrolling, .mouseButtons, .mouseAnyMotion, .mouseSgr, .altScreen,
+   .synchronizedOutput, .bracketedPaste]
+
+/-- `Ps` of DECRPM: 0 not recognized, 1 set, 2 reset, 3 permanently set, 4 permanently reset -/
+inductive ReportStatus where
+  | notRecognized | set | reset | permanentlySet | permanentlyReset
+  deriving Repr, DecidableEq
+
+def ReportStatus.value : ReportStatus → Nat
+  | .notRecognized => 0 | .set => 1 | .reset => 2 | .permanentlySet => 3 | .permanentlyReset => 4
+
+def ReportStatus.name : ReportStatus → DecModeStatus
+  | .notRecognized => .notRecognized | .set => .enabled | .reset => .disabled
+  | .permanentlySet => .permanentlyEnabled | .permanentlyReset => .permanentlyDisabled
+
+def ReportStatus.all : List ReportStatus := [.notRecognized, .set, .reset, .permanentlySet, .permanentlyReset]
+
+/-! ## text -/
+
+/-- a Unicode scalar value -/
+def Scalar (c : Nat) : Prop := c < 0xD800 ∨ (0xE000 ≤ c ∧ c < 0x110000)
+
+/-- UTF-8 encoding of a sequence of code points -/
+def encText (cps : List Nat) : List Nat := cps.flatMap utf8
+
+/-- text: a sequence of Unicode scalar values other than ESC, UTF-8 encoded -/
+def TextOk (t : List Nat) : Prop := ∃ cps : List Nat, (∀ c ∈ cps, Scalar c ∧ c ≠ 27) ∧ t = encText cps
 
 /-! ## messages -/
 
@@ -185,7 +322,7 @@ inductive Msg where
   /-- XTWINOPS 18 and 14 replies `CSI 8 ; h ; w t CSI 4 ; h ; w t` -/
   | size (cellHeight cellWidth pixelHeight pixelWidth : Nat)
   /-- DECRPM `CSI ? mode ; status $ y` -/
-  | decMode (mode : DecMode) (status : DecModeStatus)
+  | decMode (mode : PrivateMode) (status : ReportStatus)
   /-- DA1 `CSI ? a ; b ; … c`, optionally with a trailing `;` -/
   | deviceAttrs (attrs : List Nat) (trailing : Bool)
   /-- OSC 10 / 11 / 4 colour reply -/
@@ -200,8 +337,8 @@ inductive Msg where
   | keyboardLevel (flags : Nat)
   /-- kitty keyboard `CSI code[:alt…] [; 1+mods] u`; `mods = none`: field omitted -/
   | csiU (code : Nat) (alts : List Nat) (mods : Option Nat)
-  /-- kitty graphics response `APC G i=id[,p=placement] ; OK|message ST` -/
-  | kittyImage (id : Nat) (placement : Option Nat) (error : Option (List Nat))
+  /-- kitty graphics response `APC G i=id[,I=number][,p=placement] ; OK|message ST` -/
+  | kittyImage (id : Nat) (number : Option Nat) (placement : Option Nat) (error : Option (List Nat))
   /-- bracketed paste -/
   | paste (text : List Nat)
   /-- SGR sequence `CSI params m` -/
@@ -228,7 +365,7 @@ def print : Msg → List Nat
   | .size ch cw ph pw =>
     CSI ++ [56, 59] ++ showNat ch ++ [59] ++ showNat cw ++ [116] ++
     CSI ++ [52, 59] ++ showNat ph ++ [59] ++ showNat pw ++ [116]
-  | .decMode m s => CSI ++ [63] ++ showNat m.code ++ [59] ++ showNat s.code ++ [36, 121]
+  | .decMode m s => CSI ++ [63] ++ showNat m.number ++ [59] ++ showNat s.value ++ [36, 121]
   | .deviceAttrs attrs trailing =>
     CSI ++ [63] ++ joinWith 59 (attrs.map showNat) ++ (if trailing then [59] else []) ++ [99]
   | .color name spec fin => [27, 93] ++ oscNumber name ++ [59] ++ spec.print ++ fin.bytes
@@ -242,8 +379,9 @@ def print : Msg → List Nat
   | .csiU code alts mods =>
     CSI ++ csiUCodes code alts ++
       (match mods with | some m => 59 :: showNat (m + 1) | none => []) ++ [117]
-  | .kittyImage id placement error =>
+  | .kittyImage id number placement error =>
     [27, 95, 71, 105, 61] ++ showNat id ++
+      (match number with | some n => [44, 73, 61] ++ showNat n | none => []) ++
       (match placement with | some p => [44, 112, 61] ++ showNat p | none => []) ++ [59] ++
       (match error with | some msg => msg | none => [79, 75]) ++ ST
   | .paste text => CSI ++ [50, 48, 48, 126] ++ text ++ CSI ++ [50, 48, 49, 126]
@@ -264,7 +402,7 @@ def denote : Msg → Event
     .mouse (buttonName code) (code / 4 % 8 + (if press then modPress else 0)) (y - 1) (x - 1)
   | .cursor r c => .cursorPosition (r - 1) (c - 1)
   | .size ch cw ph pw => .size ch cw ph pw
-  | .decMode m s => .decMode m s
+  | .decMode m s => .decMode m.name s.name
   | .deviceAttrs attrs _ => .deviceAttrs (Automata.sortDedup attrs)
   | .color name spec _ => .color name spec.rgba
   | .faceReport items => .faceGet (faceOf (sgrMeaning items))
@@ -272,7 +410,7 @@ def denote : Msg → Event
   | .termcapFail names _ => .termcap (names.foldl (fun m n => mapInsert n none m) [])
   | .keyboardLevel flags => .keyboardLevel flags
   | .csiU code _ mods => .key ⟨csiUName code, mods.getD 0⟩
-  | .kittyImage id placement error => .kittyImage id placement error
+  | .kittyImage id _ placement error => .kittyImage id placement error
   | .paste text => .paste text
   | .sgr items => .command (sgrMeaning items)
 
@@ -300,19 +438,16 @@ def Msg.tag : Msg → Nat
   | .key i => ((protoKeys[i]?.map Prod.snd).getD ⟨.esc, 0⟩).code
   | m => m.family.tag
 
-/-- a string of text: well-formed UTF-8 without ESC -/
-def TextOk (t : List Nat) : Prop := validUtf8 t = true ∧ 27 ∉ t ∧ ∀ b ∈ t, b < 256
-
 /-- a code a kitty `CSI u` report can carry and the library names: not a private use functional key other
     than F13–F35, a scalar value -/
 def CsiUCodeOk (code : Nat) : Prop :=
-  isScalar code = true ∧ (57344 ≤ code ∧ code ≤ 63743 → 57376 ≤ code ∧ code ≤ 57398)
+  Scalar code ∧ (57344 ≤ code ∧ code ≤ 63743 → 57376 ≤ code ∧ code ≤ 57398)
 
 /-- parameter ranges: every numeric parameter fits a machine word (in particular 1..65535 coordinates, every
     modifier mask, every button code); coordinates are 1-based -/
 def Msg.Valid : Msg → Prop
   | .key i => i < protoKeys.length
-  | .text c => isScalar c = true ∧ 32 ≤ c ∧ c ≠ 127
+  | .text c => Scalar c ∧ 32 ≤ c ∧ c ≠ 127
   | .mouse code x y _ => code ≤ usizeMax ∧ 1 ≤ x ∧ x ≤ usizeMax ∧ 1 ≤ y ∧ y ≤ usizeMax
   | .cursor r c => 1 ≤ r ∧ r ≤ usizeMax ∧ 1 ≤ c ∧ c ≤ usizeMax
   | .size ch cw ph pw => ch ≤ usizeMax ∧ cw ≤ usizeMax ∧ ph ≤ usizeMax ∧ pw ≤ usizeMax
@@ -326,11 +461,17 @@ def Msg.Valid : Msg → Prop
   | .keyboardLevel flags => flags ≤ usizeMax
   | .csiU code alts mods =>
     CsiUCodeOk code ∧ (∀ a ∈ alts, a ≤ usizeMax) ∧ ∀ m, mods = some m → m < 256
-  | .kittyImage id placement error =>
-    id ≤ usizeMax ∧ (∀ p, placement = some p → p ≤ usizeMax) ∧
+  | .kittyImage id number placement error =>
+    id ≤ usizeMax ∧ (∀ n, number = some n → n ≤ usizeMax) ∧ (∀ p, placement = some p → p ≤ usizeMax) ∧
       ∀ msg, error = some msg → TextOk msg ∧ msg ≠ [79, 75]
   | .paste t => TextOk t
   | .sgr items => items ≠ [] ∧ ∀ it ∈ items, it.Valid
+
+/-- The other documented ambiguity: the introducers ESC, CSI (`ESC [`), OSC (`ESC ]`), APC (`ESC _`), SS3 (`ESC O`)
+    and DCS (`ESC P`) are themselves spellings of keys (esc, alt+[, alt+], alt+_, shift+alt+o, shift+alt+p) and at
+    the same time proper prefixes of longer sequences.  These six — and no other spelling of the naming table —
+    are not self-delimiting: followed by input that continues them they resolve to the longer sequence. -/
+def prefixKeys : List (List Nat) := [[27], [27, 91], [27, 93], [27, 95], [27, 79], [27, 80]]
 
 /-- the documented ambiguity of the legacy encodings: `CSI 1 ; n R` (n = 2..8) is F3 with modifiers, not a
     cursor position report -/
@@ -340,93 +481,3 @@ def Msg.Ambiguous : Msg → Prop
 
 end SurfModel.Protocol
 
-/-! ## line protocol: `proto msg <wire>` → `<hex of print> <showEvent of denote>`
-
-Cross-check of this transcription of the protocols with the harness' own (Rust) transcription. -/
-namespace SurfModel.Protocol
-open SurfModel.Vt SurfModel.Sgr SurfModel.Grammar SurfModel.Payload SurfModel.Proto
-
-def parseBit (s : String) : Option Bool :=
-  if s == "1" then some true else if s == "0" then some false else none
-
-def parseOptNat' (s : String) : Option (Option Nat) :=
-  if s == "-" then some none else s.toNat?.map some
-
-def parseNats (s : String) : Option (List Nat) :=
-  if s == "-" then some [] else (s.splitOn ",").mapM (·.toNat?)
-
-def parseName (s : String) : Option ColorName :=
-  if s == "fg" then some .foreground else if s == "bg" then some .background
-  else if s.startsWith "p" then (s.drop 1).toNat?.map ColorName.palette else none
-
-def parseEnd (s : String) : Option OscEnd :=
-  if s == "st" then some .st else if s == "bel" then some .bel else none
-
-def parseChannel (s : String) : Option Channel :=
-  match s.splitOn "." with
-  | [d, v] => do pure ⟨← d.toNat?, ← v.toNat?⟩
-  | _ => none
-
-def parseForm (s : String) : Option ColorForm :=
-  if s == "s" then some .semi else if s == "c" then some .colon else if s == "cs" then some .colonSpace else none
-
-def parseItem (s : String) : Option SgrItem :=
-  if s == "reset" then some .reset
-  else if s == "bold1" then some (.bold true) else if s == "bold0" then some (.bold false)
-  else if s == "italic1" then some (.italic true) else if s == "italic0" then some (.italic false)
-  else if s == "blink1" then some (.blink true) else if s == "blink0" then some (.blink false)
-  else if s == "strike1" then some (.strike true) else if s == "strike0" then some (.strike false)
-  else if s.startsWith "ul" then (s.drop 2).toNat?.map SgrItem.underline
-  else if s.startsWith "rgb" then
-    match (s.drop 3).toString.splitOn "." with
-    | [role, r, g, b, f] => do pure (.rgb (← role.toNat?) (← r.toNat?) (← g.toNat?) (← b.toNat?) (← parseForm f))
-    | _ => none
-  else none
-
-def parseItems (s : String) : Option (List SgrItem) :=
-  if s == "-" then some [] else (s.splitOn ",").mapM parseItem
-
-def parseDecMode (n : Nat) : Option DecMode := DecMode.all.find? fun m => m.code == n
-def parseDecStatus (n : Nat) : Option DecModeStatus := DecModeStatus.all.find? fun m => m.code == n
-
-def parsePair (s : String) : Option (List Nat × List Nat) :=
-  match s.splitOn "=" with
-  | [k, v] => do pure (← unhexN k, ← unhexN v)
-  | _ => none
-
-def parseMsg : List String → Option Msg
-  | ["key", i] => i.toNat?.map Msg.key
-  | ["text", c] => c.toNat?.map Msg.text
-  | ["mouse", code, x, y, p] => do pure (.mouse (← code.toNat?) (← x.toNat?) (← y.toNat?) (← parseBit p))
-  | ["cursor", r, c] => do pure (.cursor (← r.toNat?) (← c.toNat?))
-  | ["size", a, b, c, d] => do pure (.size (← a.toNat?) (← b.toNat?) (← c.toNat?) (← d.toNat?))
-  | ["decmode", m, s] => do pure (.decMode (← m.toNat?.bind parseDecMode) (← s.toNat?.bind parseDecStatus))
-  | ["da", t, l] => do pure (.deviceAttrs (← parseNats l) (← parseBit t))
-  | ["color", n, e, "hash", r, g, b] => do
-    pure (.color (← parseName n) (.hash (← r.toNat?) (← g.toNat?) (← b.toNat?)) (← parseEnd e))
-  | ["color", n, e, "rgb", r, g, b] => do
-    pure (.color (← parseName n) (.rgb (← parseChannel r) (← parseChannel g) (← parseChannel b)) (← parseEnd e))
-  | ["facereport", items] => (parseItems items).map Msg.faceReport
-  | ["sgr", items] => (parseItems items).map Msg.sgr
-  | ["tcok", u, l] => do
-    let es ← if l == "-" then some [] else (l.splitOn ";").mapM parsePair
-    pure (.termcapOk es (← parseBit u))
-  | ["tcfail", u, l] => do
-    let ns ← if l == "-" then some [] else (l.splitOn ";").mapM unhexN
-    pure (.termcapFail ns (← parseBit u))
-  | ["kbd", f] => f.toNat?.map Msg.keyboardLevel
-  | ["csiu", code, alts, mods] => do pure (.csiU (← code.toNat?) (← parseNats alts) (← parseOptNat' mods))
-  | ["kitty", id, p, e] => do
-    let err ← if e == "ok" then some none else if e.startsWith "e" then (unhexN (e.drop 1).toString).map some else none
-    pure (.kittyImage (← id.toNat?) (← parseOptNat' p) err)
-  | ["paste", t] => (unhexN t).map Msg.paste
-  | _ => none
-
-def handle : List String → String
-  | "msg" :: rest =>
-    match parseMsg rest with
-    | some m => s!"{hexN (print m)} {showEvent (denote m)}"
-    | none => "bad-msg"
-  | _ => "bad-op"
-
-end SurfModel.Protocol
